@@ -364,8 +364,8 @@ Section Send.
       let streamed := if (m =? M_HEAD) && negb (hd_status h4 =? 101) then [] else stream_bytes r1 in
       Ok (mkSent h5 (body_written m body ++ streamed))).
 
-  (** the same before the repairs 537474e (the future ran for HEAD too), 7d5ef9e (a stream of unknown
-      length went out as keep-alive), 85bf4a8 (a body after 1xx/204/304) and ba3ae72 (transfer-encoding
+  (** the same before the repairs 537474e (the future ran for HEAD too), feabc71 (a stream of unknown
+      length went out as keep-alive), b4638db (a body after 1xx/204/304) and c151144 (transfer-encoding
       beside content-length): only the refutation witnesses use it *)
   Definition send_v0 (m : N) (r : reply0) : outcome sent :=
     obind (match r0_future r with Some _ => Ok r | None => apply_sanitize r end) (fun r1 =>
@@ -423,10 +423,11 @@ Definition body_length (m : N) (cl : option bytes) : N :=
   end.
 
 (** [handle_connection]'s [close_delimited]: the reply streams a body of unknown length and does not frame it
-    itself with a [transfer-encoding]; the connection is closed after it *)
+    itself with a [transfer-encoding] or a [content-length] of its own; the connection is closed after it *)
 Definition unframed (r : reply0) : bool :=
   match r0_future r with
   | Some (None, _) => negb (has_header s_transfer_encoding (r0_headers r))
+                      && negb (has_header s_content_length (r0_headers r))
   | _ => false
   end.
 
@@ -565,7 +566,8 @@ Record c8cfg := mkC8 {
   c8_readers : list (bytes * N);             (* handler paths that call read_to_bytes(limit) *)
   c8_limit : N;                              (* limiter max_requests; 0 = disabled *)
   (* handler paths whose reply carries a future: kind 0 = [extensions::stream_body] (the file of that path),
-     1 = [with_future] (no length), 2 = [with_future_and_len announced]; the chunks the future writes *)
+     1 = [with_future] (no length), 2 = [with_future_and_len announced], 3 = [with_future] and a
+     [content-length: announced] header of the handler's own; the chunks the future writes *)
   c8_streams : list (bytes * (N * N * list bytes)) }.
 
 (** [handle_request] below the handlers: GET/HEAD read the file (404 if there is none), every other method gets 405 *)
@@ -600,7 +602,7 @@ Definition stream_future (clamp : bool) (streams : list (bytes * (N * N * list b
         | Some content => Some (stream_body_future clamp content r)
         | None => None
         end
-      else if kind =? 1 then Some (None, chunks)
+      else if (kind =? 1) || (kind =? 3) then Some (None, chunks)
       else Some (Some announced, chunks)
   end.
 
@@ -611,14 +613,15 @@ Definition compute_c08 (cfg : c8cfg) (hs : list N) (r : request) (ok : bool) : f
       else err_fat 416 None SP_NONE), hs, [])
   else
   match assocS (rq_path r) (c8_streams cfg) with
-  | Some (kind, _, _) =>
+  | Some (kind, announced, _) =>
       (* a Prepare extension: it is run for every method *)
       if kind =? 0 then
         match assoc (rq_path r) (c8_files cfg) with
         | Some _ => (stream_fat (with_client_cache 3 [(B "vary", B "range")]), hs, [])
         | None => (err_fat 404 None SP_NONE, hs, [])     (* [default_error_response]: not stored *)
         end
-      else (stream_fat (with_client_cache 3 [(B "content-type", B "text/plain"); (B "x-tag", B "S")]), hs, [])
+      else (stream_fat (with_client_cache 3 ([(B "content-type", B "text/plain"); (B "x-tag", B "S")]
+                                             ++ (if kind =? 3 then [(s_content_length, dec announced)] else []))), hs, [])
   | None =>
   match find_handler_last (rq_path r) (cf_handlers (c8_base cfg)) O None with
   | Some _ => compute_fix (cf_handlers (c8_base cfg)) hs r ok
@@ -853,24 +856,40 @@ Fixpoint c8_hyps_closing (cfg : c8cfg) (st : c8_state) (hs : list (hreq c8req)) 
       end
   end.
 
+(** the position of the first answer that is a stream of unknown length (whatever else the history contains) *)
+Fixpoint c8_first_unframed (cfg : c8cfg) (st : c8_state) (hs : list (hreq c8req)) (n : nat) : option nat :=
+  match hs with
+  | [] => None
+  | h :: rest =>
+      if q_nohost (h_q c8req h) then None else
+      match h_action c8req h with
+      | ASend => c8_first_unframed cfg st rest (S n)
+      | ADrop => None
+      | APassed =>
+          let '(st', r, _) := c8_app cfg st (q_req (h_q c8req h)) in
+          if unframed r then Some (S n) else c8_first_unframed cfg st' rest (S n)
+      end
+  end.
+
 (** what the property demands of a case: (n answers, the connection stays usable), whether the history
     is an instance of the theorems' hypotheses ([checked_history_is_instance]), and whether it is one of
-    [checked_closing_history_is_instance]: its n-th answer is a stream of unknown length, which the server
-    ends by closing the connection *)
+    [checked_closing_history_is_instance]; fourth field: its n-th answer is a stream of unknown length, which the
+    server ends by closing the connection (what is sent after it is not answered) *)
 Definition run_expect (x : xval) : xval :=
   match x with
   | XL [c; XL rs] =>
       match d_c8cfg c, d_all d_c8req rs with
       | Some cfg, Some reqs =>
           let hs := with_actions (c8_limit cfg) 1 reqs in
-          match c8_hyps_closing cfg (c8_state0 cfg) hs O with
+          match c8_first_unframed cfg (c8_state0 cfg) hs O with
           | Some n =>
               (* n answers, the last one ended by the close; the requests after it are not answered *)
-              XL [x_nat n; x_bool false; x_bool false; x_bool true]
+              XL [x_nat n; x_bool false; x_bool false; x_bool true;
+                  x_bool (match c8_hyps_closing cfg (c8_state0 cfg) hs O with Some _ => true | None => false end)]
           | None =>
               XL [x_nat (length reqs);
                   x_bool (negb (existsb (fun '(q, _, _) => q_nohost q) reqs));
-                  x_bool (c8_hyps cfg (c8_state0 cfg) hs); x_bool false]
+                  x_bool (c8_hyps cfg (c8_state0 cfg) hs); x_bool false; x_bool false]
           end
       | _, _ => bad_input
       end
